@@ -39,7 +39,7 @@ ASSERT_SINKS = {
     'assert_equal': 'equality',
 }
 
-PARTIAL = {'skip', 'take', 'step_by', 'filter', 'skip_while', 'take_while', 'split_at', 'split_first', 'split_last', 'first', 'last', 'nth', 'chunks', 'windows'}
+PARTIAL = {'skip', 'take', 'step_by', 'filter', 'skip_while', 'take_while', 'split_at', 'split_first', 'split_last', 'first', 'last', 'nth'}
 
 
 def atom_in(v, a):
@@ -156,7 +156,30 @@ class Engine:
                 out.append(e)
             elif kind == 'struct' and e.kind == 'struct':
                 out.append(e)
+            elif kind == 'ret' and e.kind == 'ret' and not e.stack:
+                out.append(e)
         return out
+
+    def order(self, rule, oid, fn_q, first, then, why, crate=None):
+        """every call of `then` in fn is preceded by a call of `first` (program order of the evaluated body)"""
+        cands = self.resolve_fn(fn_q, crate)
+        if len(cands) != 1:
+            self.ck.ob(rule, oid, False, 'ANCHOR-MISSING: %s resolves to %d functions' % (fn_q, len(cands)), fn_q)
+            return
+        fl = self.flow_of(cands[0])
+        seen_first = False
+        n_then = 0
+        for e in fl.events:
+            if e.kind != 'call':
+                continue
+            if e.name == first:
+                seen_first = True
+            elif e.name == then:
+                n_then += 1
+                if not seen_first:
+                    self.ck.ob(rule, oid, False, 'ORDER: %s() is called in %s before %s(): %s' % (then, cands[0].qual, first, why), e.loc())
+                    return
+        self.ck.ob(rule, oid, n_then > 0 and seen_first, why if n_then and seen_first else 'calls %s/%s not both found in %s: %s' % (first, then, cands[0].qual, why), '%s:%d' % (cands[0].file, cands[0].line))
 
     def check(self, rule, spec):
         """Evaluate one obligation; record it on the Check. Returns the satisfying event or None."""
@@ -226,7 +249,7 @@ class Engine:
         if 'loop' in ctx:
             ok = False
             for fr in e.ctx:
-                if fr[0] == 'loop' and not missing(fr[1], ctx['loop']):
+                if fr[0] == 'loop' and (not ctx['loop'] or not missing(fr[1], ctx['loop'])):
                     ok = True
             if not ok:
                 miss.append('ctx:loop-over(%s)' % ','.join(ctx['loop']))
